@@ -31,6 +31,7 @@ fn main() {
         "recover" => crashdrv::recover_main(rest),
         "chunkrec" => crashdrv::chunkrec_main(rest),
         "stalechain" => crashdrv::stalechain_main(rest),
+        "uringfault" => crashdrv::uringfault_main(rest),
         "clocksat" => seqdrv::clocksat(rest),
         "layout-selftest" => layout::selftest(rest.first().map(|s| s.as_str()).unwrap_or("/dev/shm/fxv-layout")),
         "version" => {
